@@ -30,12 +30,13 @@ wshared *W;
 int w_vclock, w_ledger, w_delays, w_in_start, w_cur_op = -1, w_side;
 int64_t w_vnow, w_epoch_ms = 1700000000000LL;
 int64_t (*w_sched_next)(void);
-void (*w_sched_run)(int64_t upto);
+int (*w_sched_run)(int64_t upto);
 void (*w_on_hang)(const char *what);
 int (*w_on_kill)(int pid, int sig);
 void (*w_on_fork_child)(void);
 
 static int cnt[2][F_N];
+static int last_fork_op = -2;  // API op during which the library last forked (parent side)
 static pthread_mutex_t child_mu = PTHREAD_MUTEX_INITIALIZER;
 static trec dummy_rec;
 
@@ -122,6 +123,7 @@ void wrap_reset_case(void)
   w_vnow = 0;
   w_side = 0;
   w_cur_op = -1;
+  last_fork_op = -2;
 }
 
 int wrap_fn_by_name(const char *name)
@@ -280,7 +282,10 @@ pid_t __wrap_fork(void)
     if (w_on_fork_child) w_on_fork_child();
     return 0;
   }
-  if (p > 0) child_set(p, 1);
+  if (p > 0) {
+    child_set(p, 1);
+    last_fork_op = w_cur_op;
+  }
   fin(t, p);
   return p;
 }
@@ -339,11 +344,17 @@ pid_t __wrap_waitpid(pid_t pid, int *status, int options)
     return -1;
   }
   if (w_vclock && !w_in_start && !(options & WNOHANG)) {
+    int grace = (w_cur_op >= 0 && w_cur_op == last_fork_op) ? 3000 : 0;
     for (;;) {
       siginfo_t si;
       si.si_pid = 0;
       int q = waitid(P_PID, (id_t) pid, &si, WEXITED | WNOHANG | WNOWAIT);
       if (q < 0 || si.si_pid != 0) break;
+      if (grace > 0) {
+        grace--;
+        usleep(1000);
+        continue;
+      }
       vwait_step("waitpid", t);
     }
   }
@@ -594,11 +605,16 @@ ssize_t __wrap_read(int fd, void *buf, size_t n)
   int nb = fl >= 0 && (fl & O_NONBLOCK);
   if (nb) t->flags |= TF_NONBLOCK;
   if (w_vclock && !w_in_start && fl >= 0 && !nb) {
+    // A child forked during this API call runs in real time until it execs or fails:
+    // give its error pipe real time before treating the wait as a virtual one.
+    int grace = (w_cur_op >= 0 && w_cur_op == last_fork_op) ? 3000 : 0;
     for (;;) {
-      w_sched_run(w_vnow);
+      int prog = w_sched_run(w_vnow);
       struct pollfd p = { fd, POLLIN, 0 };
-      int q = poll(&p, 1, 0);
+      int q = poll(&p, 1, grace);
+      grace = 0;
       if (q != 0) break;
+      if (prog) continue;
       vwait_step("read", t);
     }
   }
@@ -627,7 +643,7 @@ ssize_t __wrap_write(int fd, const void *buf, size_t n)
     size_t done = 0;
     ssize_t r = 0;
     for (;;) {
-      w_sched_run(w_vnow);
+      int prog = w_sched_run(w_vnow);
       fcntl(fd, F_SETFL, fl | O_NONBLOCK);
       r = write(fd, (const char *) buf + done, n - done);
       int we = errno;
@@ -636,6 +652,7 @@ ssize_t __wrap_write(int fd, const void *buf, size_t n)
       if (r > 0) done += (size_t) r;
       if (r < 0 && errno != EAGAIN) break;
       if (done >= n) break;
+      if (r > 0 || prog) continue;  // the peer may be able to go on now
       vwait_step("write", t);
     }
     if (r < 0 && done == 0) {
@@ -669,9 +686,10 @@ int __wrap_poll(struct pollfd *fds, nfds_t nfds, int timeout)
   int64_t start = w_vnow;
   int r;
   for (;;) {
-    w_sched_run(w_vnow);
+    int prog = w_sched_run(w_vnow);
     r = poll(fds, nfds, 0);
     if (r != 0 || timeout == 0) break;
+    if (prog) continue;
     int64_t end = timeout < 0 ? INT64_MAX : start + timeout;
     int64_t nx = w_sched_next ? w_sched_next() : INT64_MAX;
     if (nx == INT64_MAX && end == INT64_MAX) hang("poll");
@@ -740,12 +758,8 @@ void *__wrap_realloc(void *old, size_t n)
     errno = e;
     return NULL;
   }
-  if (w_side == 0 && w_ledger && old) {
-    if (!heap_del(old)) {
-      t->flags |= TF_FOREIGN;
-      W->n_unknown_free++;
-    }
-  }
+  // An unknown old pointer is legitimate here: the string sink grows a caller-supplied string.
+  if (w_side == 0 && w_ledger && old) heap_del(old);
   void *p = realloc(old, n);
   if (w_side == 0 && w_ledger) heap_add(p ? p : (n ? old : NULL));
   t->ret = p != NULL;
